@@ -91,8 +91,11 @@ def run_recalc(env, cases):
         lim.set_target(cur)
         s.target_response_time = trt
         s._req_times[:] = [avg]
-        s._recalc_concurrency()
-        out.append(lim.max_concurrent)
+        try:
+            s._recalc_concurrency()
+            out.append(lim.max_concurrent)
+        except Exception as e:      # noqa: recalibration must not raise for any history
+            out.append(f'{type(e).__name__}: {e}')
     env.close_loop()
     return out
 
@@ -102,6 +105,10 @@ def evaluate_recalc(ctx, res, cases):
     model = ctx.model([f'R {cur} {fr(trt)} {fr(avg)}' for cur, trt, avg in cases])
     for idx, ((cur, trt, avg), new) in enumerate(zip(cases, impl)):
         case = {'level': 'recalc', 'current': cur, 'target_response_time': trt, 'avg': avg}
+        if not isinstance(new, int):
+            res.violation('c20:recalc-raised', case, f'_recalc_concurrency raised {new}')
+            res['evaluations'] += 1
+            continue
         if 1 <= cur <= 250:
             bad = step_oracle(cur, new)
             if bad:
@@ -379,6 +386,22 @@ def judge(run):
             c = callers[cid]
             if done[cid][1][0] != 'timeout' and not (c['kind'] == 'batch' and not any(c['items'])):
                 fail('c20:unanswered-without-timeout', f'caller {cid} never answered, outcome {done[cid][1]}')
+    # connection loss cancels every outstanding request at once
+    if run.lost_at is not None:
+        for cid, tw in run.written.items():
+            if tw >= run.lost_at or cid not in done:
+                continue
+            t, out = done[cid]
+            if t < run.lost_at - 1e-12:
+                continue            # finished before the loss
+            ra = run.reply_at.get(cid)
+            tie = abs(tw + timeout - run.lost_at) < 1e-9 or (ra is not None and abs(ra[0] - run.lost_at) < 1e-9)
+            if tie or cid in run.cancelled_by_harness:
+                continue
+            if out[0] != 'cancelled' or abs(t - run.lost_at) > 1e-9:
+                fail('c20:not-cancelled-on-connection-loss',
+                     f'caller {cid} was awaiting a response when the connection was lost at '
+                     f'{run.lost_at}; outcome {out} at {t}')
     stats['queued'] = sum(1 for cid, (t0, q) in start_info.items()
                           if cid in run.written and run.written[cid] > t0)
     return first[0], stats
@@ -609,10 +632,24 @@ RULE = ('(i) case = (current, target_response_time, average): every current in 1
         'distinct JSON of the workload / distinct (current, trt, avg)')
 
 
+def _known_keys(ctx):
+    try:
+        with open(os.path.join(ctx.verif, 'known_findings.json')) as f:
+            return {k['key'] for k in json.load(f).get('known', []) if k.get('property') == 'C20'}
+    except (OSError, ValueError):
+        return set()
+
+
+def _failed(res, known):
+    """something failed that is not a listed known finding (those must not stop the exploration)"""
+    return bool(res.n_disagreements) or any(v['key'] not in known for v in res['violations'])
+
+
 def run(ctx):
     res = Results()
     rng = ctx.rng
     _init(ctx.repo)
+    known = _known_keys(ctx)
     # (a) corpus first: the F18 witnesses and the F19 probe
     cr = corpus_recalc(ctx.verif)
     if cr:
@@ -623,11 +660,11 @@ def run(ctx):
     res['scopes']['corpus'] = len(cr) + len(cw)
     # (b) exhaustive recalibration grid
     full = ctx.tier == 'thorough'
-    cases = list(recalc_cases(full and not res.failed))
+    cases = list(recalc_cases(full and not _failed(res, known)))
     evaluate_recalc(ctx, res, cases)
     res['scopes']['recalc_grid'] = {'currents': '1..250', 'points': len(cases)}
     # (c) workloads
-    nwl = (4000 if full else 900) if ctx.deep and not res.failed else 300
+    nwl = (30000 if full else 1200) if ctx.deep and not _failed(res, known) else 500
     wls = [random_workload(rng, big=(k % 3 == 0)) for k in range(nwl)]
     evaluate_workloads(ctx, res, wls, 'random')
     res['scopes']['workloads'] = nwl
